@@ -103,7 +103,11 @@ pub fn ref_taproot_of(env: &Env, tr: &miniscript::descriptor::Tr<DefiniteDescrip
 }
 
 /// All spends R3 can build for the descriptor in `world` (bytes taken from `sat`).
-pub fn ref_spends(env: &Env, desc: &Descriptor<DefiniteDescriptorKey>, sat: &WorldSat, world: &RefWorld) -> RefResult {
+pub fn ref_spends(env: &Env, desc: &Descriptor<DefiniteDescriptorKey>, sat: &WorldSat, world: &RefWorld) -> RefResult { ref_spends_ext(env, desc, sat, world, false) }
+
+/// With `include_dis` the root dissatisfactions (witnesses that must make the script *fail*) are
+/// returned as well; used to look for false accepts of the interpreter.
+pub fn ref_spends_ext(env: &Env, desc: &Descriptor<DefiniteDescriptorKey>, sat: &WorldSat, world: &RefWorld, include_dis: bool) -> RefResult {
     let mut res = RefResult { spends: vec![], truncated: false, unsupported: false };
     let mut ctx = RefCtx { uni: &env.uni, by_expr: &env.by_expr, world, leaf: None, unsupported: false };
     let key_id = |k: &DefiniteDescriptorKey| env.by_expr.get(&k.to_string()).copied();
@@ -129,7 +133,7 @@ pub fn ref_spends(env: &Env, desc: &Descriptor<DefiniteDescriptorKey>, sat: &Wor
         Descriptor::Bare(b) => {
             let sd = ctx.eval(b.as_inner());
             res.truncated = sd.truncated;
-            for w in &sd.sat {
+            for w in sd.sat.iter().chain(sd.dis.iter().filter(|_| include_dis)) {
                 if let Some(items) = concretize(env, sat, w, KeyEnc::Full, None) {
                     res.spends.push(RefSpend { wit: vec![], ss: pushes(&items), canonical: w.canonical, has_sig: w.has_sig });
                 }
@@ -140,7 +144,7 @@ pub fn ref_spends(env: &Env, desc: &Descriptor<DefiniteDescriptorKey>, sat: &Wor
             let script = ms.encode().into_bytes();
             let sd = ctx.eval(ms);
             res.truncated = sd.truncated;
-            for w in &sd.sat {
+            for w in sd.sat.iter().chain(sd.dis.iter().filter(|_| include_dis)) {
                 if let Some(mut items) = concretize(env, sat, w, KeyEnc::Full, None) {
                     items.push(script.clone());
                     res.spends.push(RefSpend { wit: items, ss: ScriptBuf::new(), canonical: w.canonical, has_sig: w.has_sig });
@@ -167,7 +171,7 @@ pub fn ref_spends(env: &Env, desc: &Descriptor<DefiniteDescriptorKey>, sat: &Wor
                 redeem.extend_from_slice(sha256::Hash::hash(&script).as_byte_array());
                 let sd = ctx.eval(ms);
                 res.truncated = sd.truncated;
-                for w in &sd.sat {
+                for w in sd.sat.iter().chain(sd.dis.iter().filter(|_| include_dis)) {
                     if let Some(mut items) = concretize(env, sat, w, KeyEnc::Full, None) {
                         items.push(script.clone());
                         res.spends.push(RefSpend { wit: items, ss: pushes(&[redeem.clone()]), canonical: w.canonical, has_sig: w.has_sig });
@@ -178,7 +182,7 @@ pub fn ref_spends(env: &Env, desc: &Descriptor<DefiniteDescriptorKey>, sat: &Wor
                 let script = ms.encode().into_bytes();
                 let sd = ctx.eval(ms);
                 res.truncated = sd.truncated;
-                for w in &sd.sat {
+                for w in sd.sat.iter().chain(sd.dis.iter().filter(|_| include_dis)) {
                     if let Some(mut items) = concretize(env, sat, w, KeyEnc::Full, None) {
                         items.push(script.clone());
                         res.spends.push(RefSpend { wit: vec![], ss: pushes(&items), canonical: w.canonical, has_sig: w.has_sig });
@@ -206,7 +210,7 @@ pub fn ref_spends(env: &Env, desc: &Descriptor<DefiniteDescriptorKey>, sat: &Wor
                 res.truncated |= sd.truncated;
                 res.unsupported |= lctx.unsupported;
                 let cb = rt.control_block(li);
-                for w in &sd.sat {
+                for w in sd.sat.iter().chain(sd.dis.iter().filter(|_| include_dis)) {
                     if let Some(mut items) = concretize(env, sat, w, KeyEnc::XOnly, Some(lh)) {
                         items.push(rt.leaves[li].script.clone());
                         items.push(cb.clone());
